@@ -1677,6 +1677,22 @@ M('C10', 'twin: NearestNeighborModel.group_sites names the group size', 'tenpy/m
   "            old_Hb = self.H_bond[(i + gs.n_sites) % old_L]\n", "            size = gs.n_sites\n            old_Hb = self.H_bond[(i + size) % old_L]\n",
   None, expect='silent')
 
+M('C05', 'twin: _eigvals_worker hoists the leg and names the slice', NPC,
+  "        qi = qindices[0]  # both `a` and `resv` are sorted and share the same qindices\n        resw[a.legs[0].get_slice(qi)] = rw  # replace eigenvalues\n    return resw", "        leg0 = a.legs[0]\n        qi = qindices[0]\n        sl = leg0.get_slice(qi)\n        resw[sl] = rw  # replace eigenvalues\n    return resw",
+  None, expect='silent')
+M('C09', 'twin: roll_mps_unit_cell reduces the indices in a comprehension', 'tenpy/networks/mps.py',
+  "        valid_inds = inds % self.L\n", "        valid_inds = [i % self.L for i in inds]\n",
+  None, expect='silent')
+M('C15', 'twin: decompose_theta_qr_based divides by the norm inline', 'tenpy/linalg/truncation.py',
+  "        N_theta = npc.norm(theta)\n        eps = npc.norm(theta / N_theta - theta_approx * renormalization / N_theta) ** 2", "        eps = npc.norm((theta - theta_approx * renormalization) / npc.norm(theta)) ** 2",
+  None, expect='silent')
+M('C14', 'twin: single-site TDVP normalises S by multiplying with the inverse', 'tenpy/algorithms/tdvp.py',
+  "        renorm = npc.norm(S)\n        S /= renorm\n        self.psi.norm *= renorm\n        A0 =", "        renorm = npc.norm(S)\n        S *= 1 / renorm\n        self.psi.norm *= renorm\n        A0 =",
+  None, expect='silent')
+M('C01', 'twin: inner() sorts axes_a through np.asarray', NPC,
+  "        sort_axes_b = np.argsort(axes_b)\n        axes_a = [axes_a[i] for i in sort_axes_b]\n", "        axes_a = list(np.asarray(axes_a)[np.argsort(np.asarray(axes_b))])\n",
+  None, expect='silent')
+
 # ---------------------------------------------------------------- C16 / C19
 M('C16', 'GMRES restart: relative residual norm used for normalisation (round-3 seed b)', KRY,
   """        self.total_error.append([npc.norm(self.rs[-1]) / self.b_norm])
